@@ -12,6 +12,7 @@ import os
 import random
 import subprocess
 
+import e2e
 import vlib
 from vlib import log
 
@@ -132,7 +133,10 @@ def run(tier, replay):
             if slow["problem"] or not slow["equal"]:
                 V.violation("a consumer stalling for 3.8 s (%s file): output incomplete or altered" % slow["variant"], slow)
         nontriv = sum(1 for c in chosen if c["hasd"] or c["dot"] or c["toolong"] or c["exp"] != c["f"])
-        cov = {"states": r.distinct, "transitions": r.generated, "traces_validated_against_impl": len(recs),
+        # end-to-end over the real SSH transport (real dserver processes, real client binary), free-running
+        ssh_runs = e2e.stage_fidelity(wd, V, rng, tier)
+        log("SSH stage: %d client runs against real dserver processes" % ssh_runs)
+        cov = {"ssh_plain_runs": ssh_runs, "states": r.distinct, "transitions": r.generated, "traces_validated_against_impl": len(recs),
                "evaluations": res["evaluations"] + len(recs) + 1, "distinct_nontrivial": nontriv,
                "rule": "cases = every file up to CaseLen bytes over 5 byte classes x MaxLineLength {2,3,6} x transport buffer {4,20} x plain/"
                        "non-plain (all below CaseLen, a seeded sample at CaseLen), concretised per case index; non-trivial = contains 0xAC, "
